@@ -380,6 +380,11 @@ seed("M.skip-no-eof-exit", 'C13', 'C13.R3:skip_bytes:eof-exit', 'the discard loo
 seed("M.skip-panic-unguarded", 'C13', 'C13.R3:skip_bytes:panic-guarded', "the 'read too much' panic is no longer guarded",
      ('memcrs/src/protocol/binary_connection.rs', '            if bytes_counter > bytes as usize {', '            if true {'))
 
+seed("M.write-error-swallowed", 'C12', 'C12.R5:write:encoded-message-written', 'a failed socket write is swallowed: write reports success',
+     ('memcrs/src/protocol/binary_connection.rs', '        self.stream.write_all(&msg.data[..]).await?;', '        self.stream.write_all(&msg.data[..]).await.ok();'))
+seed("M.toolarge-frame-not-returned", 'C09', 'C09.R5:decoded-frame-is-returned[oversized]', "the oversized request is discarded but never returned: no 'too large' answer",
+     ('memcrs/src/protocol/binary_connection.rs', '                        return Ok(Some(BinaryRequest::ItemTooLarge(request)));', '                        let _ = request;'))
+
 # ---------------------------------------------------------------- neutral variants
 neutral("N.rename-local", "rename a local in MemoryStore::set",
         (STORE, "            let cas = self.get_cas_id();\n            record.header.cas = cas;", "            let fresh = self.get_cas_id();\n            let cas = fresh;\n            record.header.cas = cas;"))
